@@ -1,11 +1,11 @@
 SPECIFICATION Spec
 CONSTANTS
-  Callers <- R_Callers
-  Msgs <- R_Msgs
-  SysMsgs <- R_Sys
-  CallerScript <- R_CallerScript
-  MsgScript <- R_MsgScript
-  ConsumerSeq <- Pool4
+  Callers <- W_Callers
+  Msgs <- W_Msgs
+  SysMsgs <- W_Sys
+  CallerScript <- W_CallerScript
+  MsgScript <- W_MsgScript
+  ConsumerSeq <- Pool3
   RecheckPaused = TRUE
 VIEW View
 INVARIANTS TypeOK CountersExact OneAtATime AtMostOnce OnlyAccepted SingleOwner PoolSuffices NoLostWakeup
